@@ -94,10 +94,10 @@ CONTRACTS["model:Model.update_pars#eligible_used_by_the_run"] = dict(
     stubs={"self._program_cache": "CACHE", "self._program_cache['capacities'][k][ti]": "CAPACITY", "self.t[ti]": "YEAR"},
     call_stubs={"self.progset.programs[k].get_prop_covered": _ghost_prop_covered},
     requires=["0 <= ti", "ti < len(c0.vals)", "ti < len(c1.vals)"],
-    ensures=[("C13.number_eligible_used_by_the_run_is_the_current_size_of_the_targeted_compartments", "N_USED == c0.vals[ti] + c1.vals[ti]"),
+    ensures=[("C13+C11.number_eligible_used_by_the_run_is_the_current_size_of_the_targeted_compartments", "N_USED == c0.vals[ti] + c1.vals[ti]"),
              ("C13.coverage_is_taken_at_the_year_of_the_step", "T_USED == YEAR"),
              ("C13.coverage_uses_the_capacity_of_the_step", "CAP_USED == CAPACITY")],
-    defined_props=["C13"])
+    defined_props=["C13", "C11"])
 
 
 def _replay_run_coverage(model, contract):
